@@ -3,7 +3,7 @@
 use vstd::prelude::*;
 use vstd::std_specs::iter::IteratorSpec;
 use vstd::std_specs::ops::*;
-use core::ops::{Add, Sub, Rem, Div, Mul};
+use core::ops::{Add, Sub, Rem, Div, Mul, RemAssign};
 verus! {
 //@ include prelude/core.rs
 //@ include prelude/std_specs.rs
@@ -208,6 +208,23 @@ impl Mul<&BigUint> for u32 {
 //+}
     {
         Mul::mul(self, other.clone())
+    }
+//@ end
+}
+
+impl RemAssignSpecImpl<&BigUint> for BigUint {
+    open spec fn obeys_rem_assign_spec() -> bool { false }
+    open spec fn rem_assign_req(&self, rhs: &BigUint) -> bool { self.wf() && rhs.wf() && (!mp() ==> rhs.v() != 0) }
+    open spec fn rem_assign_spec(&self, rhs: &BigUint) -> &BigUint { arbitrary() }
+}
+impl RemAssign<&BigUint> for BigUint {
+//@ extract src/biguint/division.rs :: impl RemAssign<&BigUint> for BigUint :: fn rem_assign rules=R0,R3zr props=C10,C03,C14 label=rem_assign_ref
+    fn rem_assign(&mut self, other: &BigUint)
+//+{
+        ensures mp() ==> other.v() != 0, final(self).wf(), exists|q: nat| udiv_ok(old(self).v(), other.v(), q, final(self).v())
+//+}
+    {
+        *self = Rem::rem(&*self, other);
     }
 //@ end
 }
